@@ -130,6 +130,16 @@ func (w *diffWorker) program(s0 ref.State, base *mem.Image, stale bool, g *vf.Rn
 		pre := absPrim(&w.rig.prim)
 		sawE[pre.E] = true
 		op := mp.Peek(uint32(pre.K)<<16 | uint32(pre.PC))
+		// interrupt requests are inputs too: raise the same one on both sides now and then
+		switch g.Intn(40) {
+		case 0:
+			w.rig.prim.TriggerIRQ()
+			w.rig.alt.TriggerIRQ()
+			w.cells["interrupt:irq-requested"]++
+		case 1:
+			w.rig.prim.Interrupt, w.rig.alt.Interrupt = 2, 2 // NMI
+			w.cells["interrupt:nmi-requested"]++
+		}
 		rp := w.rig.stepPrim(mp)
 		ra := w.rig.stepAlt(ma)
 		w.r.Eval(1)
@@ -163,8 +173,8 @@ func (w *diffWorker) program(s0 ref.State, base *mem.Image, stale bool, g *vf.Rn
 }
 
 func C02(r *vf.Run) {
-	r.Rule = "pure differential lockstep of cpu65c816 vs cpualt, same lazily-random image and raw register file on both sides: (1) every opcode x (E,M,X,D) x boundary-directed valuations incl. stale register copies; (2) random instruction streams up to 512 steps in native and emulation mode, crossing XCE in both directions and STP. After every step registers, flags, E, Stopped, Step() results, AllCycles, WDM and memory (union of written addresses) are compared. A cell is (opcode, E, M, X, D, DL!=0)"
-	r.Assume = []string{"whole 16 MiB mapped on both sides", "divergence visible only in a non-authoritative register copy is counted (raw_copy_divergences), not judged, until it surfaces architecturally", "interrupt injection is not exercised"}
+	r.Rule = "pure differential lockstep of cpu65c816 vs cpualt, same lazily-random image and raw register file on both sides: (1) every opcode x (E,M,X,D) x boundary-directed valuations incl. stale register copies; (2) random instruction streams up to 512 steps in native and emulation mode, crossing XCE in both directions and STP, with IRQ/NMI requests raised on both sides at random steps. After every step registers, flags, E, Stopped, Step() results, AllCycles, WDM and memory (union of written addresses) are compared. A cell is (opcode, E, M, X, D, DL!=0)"
+	r.Assume = []string{"whole 16 MiB mapped on both sides", "divergence visible only in a non-authoritative register copy is counted (raw_copy_divergences), not judged, until it surfaces architecturally", "interrupt requests (TriggerIRQ, NMI) are raised identically on both sides during program lockstep"}
 	ncpu := runtime.NumCPU()
 	if r.Phase("single-step") {
 		per := r.N(30, 2500)
